@@ -205,7 +205,7 @@ func ExtractDeltas(P *core.Program, spec *LedgerSpec, fn *ssa.Function) []Delta 
 				// the same location with coefficient one (amount.Add(old), old.Add(x.Neg()),
 				// old.Sub(a).Add(b), Coin.AddAmount …): the delta is the rest
 				ff.LeafKey = func(v ssa.Value) (string, bool) {
-					if ld, ok := v.(*ssa.UnOp); ok && ld.Op == token.MUL && sameLocation(ff, ld.X, fa) {
+					if ld, ok := v.(*ssa.UnOp); ok && ld.Op == token.MUL && (sameLocation(ff, ld.X, fa) || sameFieldOfCopySource(ff, ld.X, fa)) {
 						return "@OLD", true
 					}
 					return "", false
@@ -666,4 +666,42 @@ func persisted(P *core.Program, ff *core.FuncFacts, d Delta) bool {
 	}
 	_, reach := ff.SuccessExitReachableWithout(d.Instr, isPersist)
 	return !reach
+}
+
+// sameFieldOfCopySource: addr reads field path p of record A, target writes field path p of
+// a local B that was initialised as a whole by-value copy of A (`b := a; b.f = a.f + x`):
+// the value read is the old value of the location written.
+func sameFieldOfCopySource(ff *core.FuncFacts, addr ssa.Value, target *ssa.FieldAddr) bool {
+	// decompose both into base + field path
+	path := func(a ssa.Value) (ssa.Value, string) {
+		p := ""
+		for {
+			fa, ok := a.(*ssa.FieldAddr)
+			if !ok {
+				return a, p
+			}
+			p = "." + core.FieldName(fa.X.Type(), fa.Field) + p
+			a = fa.X
+		}
+	}
+	sb, sp := path(addr)
+	tb, tp := path(target)
+	if sp != tp || sp == "" || sb == tb {
+		return false
+	}
+	al, ok := tb.(*ssa.Alloc)
+	if !ok || al.Referrers() == nil {
+		return false
+	}
+	n := 0
+	var src ssa.Value
+	for _, r := range *al.Referrers() {
+		if st, ok := r.(*ssa.Store); ok && st.Addr == ssa.Value(al) {
+			n++
+			if ld, ok := st.Val.(*ssa.UnOp); ok && ld.Op == token.MUL {
+				src = ld.X
+			}
+		}
+	}
+	return n == 1 && src != nil && src == sb
 }
